@@ -58,6 +58,8 @@ RowViol(n) ==
      \cup (IF r.out = "ok" /\ r.setup_done # VGeq(v, <<2, 2>>) THEN {"C15_setup_done_wrongly_sent_or_dropped"} ELSE {})
      \cup (IF r.out = "ok" /\ r.init_tr # (r.kind # "inproc_old") THEN {"C15_time_resolution_wrongly_passed_or_dropped"} ELSE {})
      \cup (IF r.out = "ok" /\ ~r.hastype /\ r.type_seen # "time-based" THEN {"C15_missing_type_not_defaulted"} ELSE {})
+     \* only a MISSING type is defaulted: a declared type is the simulator's type, whatever its version
+     \cup (IF r.out = "ok" /\ r.hastype /\ r.type_seen # r.decl_type THEN {"C15_declared_type_not_respected"} ELSE {})
      \cup (IF r.out = "ok" /\ ~r.sameobs THEN {"C15_sees_different_scheduling_or_data_than_current_version"} ELSE {})
 
 VARIABLE k
